@@ -278,7 +278,11 @@ def text_writer(F):
                 w_ = (C(0), None) if m["view"] == P(2) else window(m["view"], P(2))
             if m and w_ is not None:
                 at = add(w_[0], m["i"])
-                writes.append((at, add(at, C(1)), "byte", src_field(n(v), hf), None))
+                nv = n(v)
+                if nv[0] == "const" and isinstance(nv[1], int) and 0 <= nv[1] < 256:
+                    writes.append((at, add(at, C(1)), "literal:%02x" % nv[1], None, None))  # a constant byte (e.g. b'T')
+                else:
+                    writes.append((at, add(at, C(1)), "byte", src_field(nv, hf), None))
             elif find_all(pe, lambda x: x == P(2)):
                 unknown.append("store " + sym.fmt(pe))
         out["modes"][mode] = {"gate": gate, "ret": ret, "writes": writes, "unknown": unknown, "path": p}
